@@ -22,7 +22,8 @@ from ..model import c10_expected as M
 ID = "C10"
 LEVEL = "exploration"
 RULE = ("one evaluation = one instantiated package with 1-3 argument strings, each resolved under 2-3 declaration "
-        "orders of its references. Non-trivial (counted per argument string) = the argument string uses >=2 declared references whose texts overlap (a "
+        "orders of its references. Non-trivial (counted per argument string) = the argument string uses >=2 declared "
+        "references whose texts overlap (a "
         "spelling of one reference is a proper substring of the spelling another one is written with: producer names "
         "that are suffixes of each other, `stage<i>.X:ref` vs the relative `X:ref` of a same-named component of the "
         "consumer's stage, `A/input/f.txt:ref` vs `input/f.txt:ref`, ...), or one reference written in both "
@@ -47,16 +48,20 @@ ASSUMPTIONS = [
 TIERS = {"quick": {"shards": 8, "budget": 150}, "thorough": {"shards": 16, "budget": 1500}}
 
 
-def _sig_for(case, group, feats, got, exp):
+def _sig_for(case, group, feats, got, exp, inst):
     prods, cstage = case["producers"], case["cstage"]
     for i in feats["mixed"]:
         for s in G.spellings(prods, cstage, group["refs"][i]):
             if s in got and s not in exp:
                 return "both-spellings-used-one-left-unresolved"
-    for loc, _ in feats["rescans"]:
+    for loc, s2 in feats["rescans"]:
+        # the inserted file text shows up with the reference-like text inside it substituted as well
         text = case["contents"][loc].rstrip("\n")
-        if text in exp and text not in got:
-            return "substituted-file-contents-rescanned"
+        for r in group["refs"]:
+            if r["method"] in G.SUBST_METHODS and s2 in G.spellings(prods, cstage, r):
+                again = text.replace(s2, M.value_of(case, r, inst))
+                if again != text and again in got and again not in exp:
+                    return "substituted-file-contents-rescanned"
     if feats["overlaps"]:
         return "reference-text-inside-longer-reference-replaced"
     return "resolved-arguments-differ"
@@ -126,7 +131,7 @@ def _check_group(case, g, group, graph, inst, ctx: Ctx):
         if got != want:
             others = [d for d, x, _ in results if x == want]
             note = " [declared as %r the result IS the expected one: order dependent]" % others[0] if others else ""
-            raise Violation(_sig_for(case, group, feats, got, want),
+            raise Violation(_sig_for(case, group, feats, got, want, inst),
                             "arguments %r with references declared %r resolve to %r, expected %r%s "
                             "(overlapping texts %r, mixed spellings %r, contents %r)" % (
                                 args, decl, got.replace(inst, "$I"), want.replace(inst, "$I"), note,
